@@ -124,6 +124,7 @@ def worker(cases):
     domains = drv.results([dict(r, op="row.domain") for r in reqs])
     domains2 = drv.results([dict(r, op="row.domain2") for r in reqs])   # hypotheses of Props.C07.parse_unparse
     out = {"n": 0, "ties": [], "viol": [], "strata": {}, "keys": [], "samples": [], "known": []}
+    shared = {}            # schema index → one RowParser reused over the shard
 
     def count(s):
         out["strata"][s] = out["strata"].get(s, 0) + 1
@@ -168,6 +169,17 @@ def worker(cases):
         as_text = dict((k, s) for k, s in cells_real[1])
         back_text = R.real_parse(cls, t, as_text)          # what a sheet file would hold
         back_raw = R.real_parse(cls, t, raw)               # the dict exactly as unparse_row returns it
+        # the same row through ONE parser per schema that has written and read other rows before: a row's cells
+        # and a row's value depend on that row only
+        if si not in shared:
+            from rpft.parsers.common.cellparser import CellParser
+            from rpft.parsers.common.rowparser import RowParser
+            shared[si] = RowParser(cls, CellParser())
+        sh_cells, sh_back = R.shared_roundtrip(shared[si], t, inst, targets, as_text)
+        count("reused-parser.rows")
+        if (sh_cells != cells_real or sh_back != back_text) and len(out["viol"]) < 60:
+            out["viol"].append({"what": "a row written / read by a parser that has handled other rows before differs from the same row handled by a fresh parser",
+                                "fresh": {"cells": cells_real, "parsed": back_text}, "reused": {"cells": sh_cells, "parsed": sh_back}, **replay})
         back_model = R.model_result(a["back"]) if "__error__" not in a else ("driver-error", a["__error__"])
         if back_model is None or not R.same_outcome(back_text, back_model):
             out["ties"].append({"what": "parse_row: model and real code differ", "cells": cells_real[1], "real": back_text, "model": back_model, **replay})
